@@ -8,6 +8,7 @@ comparison operators) and the evaluation mechanics.
 from __future__ import annotations
 
 import contextvars
+import inspect
 import operator
 import typing
 from abc import abstractmethod, ABC
@@ -1077,10 +1078,15 @@ class Variable(CanBehaveLikeAVariable[T]):
     def _instantiate_using_child_vars_and_yield_results_(
         self, sources: Dict[int, HashedValue]
     ) -> Iterable[OperationResult]:
+        parameters = _parameters_of_(self._type_)
         for kwargs in self._generate_combinations_for_child_vars_values_(sources):
             # Build once: unwrapped hashed kwargs for already provided child vars
             bound_kwargs = {k: v[self._child_vars_[k]._id_] for k, v in kwargs.items()}
-            instance = self._type_(**{k: hv.value for k, hv in bound_kwargs.items()})
+            instance = call_with_merged_arguments(
+                self._type_,
+                {k: hv.value for k, hv in bound_kwargs.items()},
+                parameters,
+            )
             if self._predicate_type_ == PredicateType.SubClassOfPredicate:
                 instance = instance()
             yield self._process_output_and_update_values_(instance, kwargs)
@@ -2010,6 +2016,57 @@ def optimize_or(left: SymbolicExpression, right: SymbolicExpression) -> OR:
         return ElseIf(left, right)
     else:
         return Union(left, right)
+
+
+VARIADIC_ARGUMENT_PREFIX = "*"
+"""
+Prefix of the names under which the elements of ``*args`` are kept in the merged keyword arguments of a call.
+"""
+
+
+def _parameters_of_(function: Callable) -> List[inspect.Parameter]:
+    """
+    :param function: A function or a class.
+    :return: The parameters of its signature, nothing if it has no signature that can be inspected.
+    """
+    try:
+        return list(inspect.signature(function).parameters.values())
+    except (TypeError, ValueError):
+        return []
+
+
+def call_with_merged_arguments(
+    function: Callable,
+    merged_arguments: Dict[str, Any],
+    parameters: List[inspect.Parameter],
+):
+    """
+    Call a function with arguments that were merged into one dictionary (see merge_args_and_kwargs): positional-only
+    parameters and the elements of ``*args`` (with everything written before them) are passed by position again.
+
+    :param function: The function (or class) to call.
+    :param merged_arguments: The arguments by parameter name, the elements of ``*args`` under prefixed names.
+    :param parameters: The parameters of the function.
+    :return: The result of the call.
+    """
+    variadic = [
+        value
+        for name, value in merged_arguments.items()
+        if name.startswith(VARIADIC_ARGUMENT_PREFIX)
+    ]
+    kwargs = {
+        name: value
+        for name, value in merged_arguments.items()
+        if not name.startswith(VARIADIC_ARGUMENT_PREFIX)
+    }
+    args = []
+    for parameter in parameters:
+        by_position = parameter.kind is parameter.POSITIONAL_ONLY or (
+            variadic and parameter.kind is parameter.POSITIONAL_OR_KEYWORD
+        )
+        if by_position and parameter.name in kwargs:
+            args.append(kwargs.pop(parameter.name))
+    return function(*args, *variadic, **kwargs)
 
 
 def _any_of_the_kwargs_is_a_variable(bindings: Dict[str, Any]) -> bool:
